@@ -555,6 +555,10 @@ class World:
                                   "cause": self.cause(tm)},
                           f"task {tm.idx} is still {st} after every process ended and every timer fired "
                           f"({self.cause(tm)})")
+                if self.cause(tm) == "dependency" and any(not self.by_tid[d].completed_ok() for d in tm.deps if d in self.by_tid):
+                    self.viol("C11", {"kind": "dependent-never-final", "stuck": st},
+                              f"task {tm.idx} was never started because a dependency did not complete, but it stays {st} "
+                              f"instead of ending failed or cancelled")
                 continue
             if adm is not None and st not in adm:
                 prop = "C11" if tm.proc is None and not tm.start_failed and not tm.cancel_hit else "C13"
